@@ -30,6 +30,7 @@ def run(ctx, rep):
     from ..rules import operators
 
     operators.rule_arithmetic_conversion_agrees(ctx, rep, "C07-R12")
+    exceptions.rule_location_of_the_executing_instruction(ctx, rep, "C07-R13")
     rep.undecided += [
         "the ordered log of catch/finally execution for all programs",
         "that reported line/column values are the right numbers",
